@@ -49,8 +49,7 @@ pub fn hash_delta<S: Src, const SIDE: u8, const KG: u8>(s: &mut S) {
         None => return,
     };
     let p = pos_of(b0.raw());
-    let m = any_m(s);
-    vassume!(in_group(m, KG));
+    let m = any_m_g::<S, SIDE, KG>(s);
     vassume!(semilegal_ref(&p, m) || (m.kind == K_NULL && wf_ref(m)));
     let mv = mv_of(m);
     let mut b = b0.clone();
